@@ -595,7 +595,7 @@ pub fn exec(case: &ConcCase) -> ConcOutcome {
         out.trace = trace.iter().map(|e| (e.ord, e.kind.to_string(), e.path.clone(), e.len)).collect();
     }
     for h in &out.history {
-        log.extend_from_slice(serde_json::to_string(h).unwrap_or_default().as_bytes());
+        log.extend_from_slice(crate::dur::canon_paths(&serde_json::to_string(h).unwrap_or_default()).as_bytes());
     }
     log.extend_from_slice(&out.sched_choices);
     out.log_hash = fnv64(&log);
@@ -672,7 +672,7 @@ fn exec_engine(case: &ConcCase, out: &mut ConcOutcome, log: &mut Vec<u8>) -> Res
     let engine = Arc::new(StorageEngine::new(cfg).map_err(|e| fail("open_failed", e.to_string()))?);
     for op in &case.setup {
         let r = apply_engine(&engine, op);
-        log.extend_from_slice(format!("setup {} -> {:?}\n", serde_json::to_string(op).unwrap_or_default(), r).as_bytes());
+        log.extend_from_slice(crate::dur::canon_paths(&format!("setup {} -> {:?}\n", serde_json::to_string(op).unwrap_or_default(), r)).as_bytes());
     }
     for kg in &case.incremental {
         engine
